@@ -301,6 +301,70 @@ def run(ctx):
     # after garbage, split or coalesced - to be delivered: the reassembly premises of C04 are re-run here, not assumed
     from . import c04
     ctx.import_rules(c04, "t4")
+    # ---- C08.t7 "... including re-authentication on V3": that a send on a V3 connection without a completed handshake authenticates first
+    # (and what `authenticated` means) is C07's session discipline, re-run here as a premise
+    from . import c07
+    ctx.import_rules(c07, "t7")
+    # ---- C08.e every read of the exchange is bounded by its timeout: the wait on the receive queue is a wait_for with the caller's timeout,
+    # and a timeout of that wait reaches the retry loop as a timeout (nothing between the wait and LAN.send swallows it or waits again)
+    from ..helpers import with_helpers
+    V2Q, V3Q = "msmart.lan._LanProtocol", "msmart.lan._LanProtocolV3"
+    chain_fns = {}
+    for q0 in (f"{LAN}._read", f"{V2Q}.read", f"{V3Q}.read", f"{V2Q}._read_queue"):
+        f0 = prog.funcs.get(q0)
+        if f0 is None:
+            continue
+        for f2 in with_helpers(prog, f0):
+            chain_fns[f2.qual] = f2
+    TO_NAMES = {"TimeoutError", "asyncio.TimeoutError", "asyncio.exceptions.TimeoutError", "OSError", "Exception", "BaseException"}
+
+    def always_raises_timeout(body, hname):
+        """every way through the statement list ends in a raise of the caught timeout (bare / the handler's name) or of a TimeoutError"""
+        if not body:
+            return False
+        last = body[-1]
+        if any(isinstance(x, (ast.Return, ast.Continue, ast.Break)) for st_ in body[:-1] for x in ast.walk(st_)):
+            return False
+        if isinstance(last, ast.Raise):
+            if last.exc is None or (isinstance(last.exc, ast.Name) and last.exc.id == hname):
+                return True
+            tgt = last.exc.func if isinstance(last.exc, ast.Call) else last.exc
+            return norm(tgt) in ("TimeoutError", "asyncio.TimeoutError")
+        if isinstance(last, ast.If):
+            return always_raises_timeout(last.body, hname) and bool(last.orelse) and always_raises_timeout(last.orelse, hname)
+        return False
+    n_waits = 0
+    for q_, f2 in sorted(chain_fns.items()):
+        par_ = {}
+        for n in ast.walk(f2.node):
+            for c in ast.iter_child_nodes(n):
+                par_[c] = n
+        for n in ast.walk(f2.node):
+            if not (isinstance(n, ast.Call) and isinstance(n.func, ast.Attribute) and n.func.attr == "get" and isinstance(n.func.value, ast.Attribute)
+                    and n.func.value.attr == "_queue"):
+                continue
+            n_waits += 1
+            w = par_.get(n)
+            bounded = isinstance(w, ast.Call) and norm(w.func) in ("asyncio.wait_for", "wait_for") and (
+                len(w.args) >= 2 or any(k.arg == "timeout" for k in w.keywords))
+            if bounded:
+                tv = w.args[1] if len(w.args) >= 2 else next(k.value for k in w.keywords if k.arg == "timeout")
+                bounded = not (isinstance(tv, ast.Constant) and tv.value is None)
+            ctx.ob("C08.e", q_, bounded, "the blocking wait on the receive queue is an asyncio.wait_for with a timeout", func=q_, file=f2.module.rel, node=n,
+                   fail="the receive queue is awaited without a timeout: a silent device hangs the exchange instead of timing out")
+            x = n
+            while x in par_:
+                p_ = par_[x]
+                if isinstance(p_, ast.Try) and any(x is b for b in p_.body):
+                    for h in p_.handlers:
+                        names = {norm(e_) for e_ in (h.type.elts if isinstance(h.type, ast.Tuple) else [h.type])} if h.type is not None else {"BaseException"}
+                        if names & TO_NAMES:
+                            ctx.ob("C08.e", q_, always_raises_timeout(h.body, h.name), "a handler around the wait passes the timeout on (re-raises it on every path)",
+                                   func=q_, file=f2.module.rel, node=h,
+                                   fail="a timeout of the read is swallowed / waited out again below the retry loop: no retransmission, no TimeoutError after `retries` attempts")
+                x = p_
+    ctx.count("queue_waits", n_waits)
+    ctx.require_min("queue_waits", 1)
     ctx.require_min("loops", 2)
     ctx.require_min("budgets", 7)
     ctx.require_min("failure_exits", 3)
